@@ -56,8 +56,9 @@ func conversionCollectionToList(ety cty.Type, conv conversion) conversion {
 		if len(elems) == 0 {
 			// Prefer a concrete type over a dynamic type when returning an
 			// empty list
-			if ety == cty.DynamicPseudoType {
-				return cty.ListValEmpty(val.Type().ElementType()), nil
+			// (also where the placeholder is nested inside the element type)
+			if ety.HasDynamicTypes() {
+				return cty.ListValEmpty(dynamicReplace(val.Type().ElementType(), ety.WithoutOptionalAttributesDeep())), nil
 			}
 			return cty.ListValEmpty(ety.WithoutOptionalAttributesDeep()), nil
 		}
@@ -110,8 +111,9 @@ func conversionCollectionToSet(ety cty.Type, conv conversion) conversion {
 		if len(elems) == 0 {
 			// Prefer a concrete type over a dynamic type when returning an
 			// empty set
-			if ety == cty.DynamicPseudoType {
-				return cty.SetValEmpty(val.Type().ElementType()), nil
+			// (also where the placeholder is nested inside the element type)
+			if ety.HasDynamicTypes() {
+				return cty.SetValEmpty(dynamicReplace(val.Type().ElementType(), ety.WithoutOptionalAttributesDeep())), nil
 			}
 			return cty.SetValEmpty(ety.WithoutOptionalAttributesDeep()), nil
 		}
@@ -163,8 +165,9 @@ func conversionCollectionToMap(ety cty.Type, conv conversion) conversion {
 		if len(elems) == 0 {
 			// Prefer a concrete type over a dynamic type when returning an
 			// empty map
-			if ety == cty.DynamicPseudoType {
-				return cty.MapValEmpty(val.Type().ElementType()), nil
+			// (also where the placeholder is nested inside the element type)
+			if ety.HasDynamicTypes() {
+				return cty.MapValEmpty(dynamicReplace(val.Type().ElementType(), ety.WithoutOptionalAttributesDeep())), nil
 			}
 			return cty.MapValEmpty(ety.WithoutOptionalAttributesDeep()), nil
 		}
